@@ -430,15 +430,25 @@ func (*Fsrv) Read(req *SrvReq) {
 			f.Unlock()
 		}
 
-		switch {
-		case tc.Offset > uint64(len(fid.dirents)):
-			n = 0
-		case len(fid.dirents[tc.Offset:]) > int(tc.Size):
-			n = int(tc.Size)
-		default:
-			n = len(fid.dirents[tc.Offset:])
+		// Return the whole entries that fit in tc.Count, starting at
+		// tc.Offset (where a previous read ended). Each serialized
+		// entry begins with its own two-byte size.
+		n = 0
+		if tc.Offset < uint64(len(fid.dirents)) {
+			b := fid.dirents[tc.Offset:]
+			for len(b[n:]) >= 2 {
+				sz := 2 + (int(b[n]) | int(b[n+1])<<8)
+				if sz > len(b[n:]) || n+sz > int(tc.Count) {
+					break
+				}
+				n += sz
+			}
+			if n == 0 {
+				req.RespondError(&Error{"too small read size for dir entry", EINVAL})
+				return
+			}
+			copy(rc.Data, b[:n])
 		}
-		copy(rc.Data, fid.dirents[tc.Offset:int(tc.Offset)+1+n])
 
 	} else {
 		// file
